@@ -54,10 +54,19 @@ def run(ctx):
 def r1_field_reads(ctx):
     exp = ctx.prog.cls(EXP)
     n = 0
+    # methods that take part in an export: reachable from export_string (a new, unrelated method of the class is not judged)
+    from ..effects import Effects
+    eng = Effects(ctx.prog)
+    es_f = ctx.prog.func(f'{EXP}.export_string')
+    eng.analyse([es_f])
+    on_path = {id(g.node) for g in eng.reachable(es_f)}
+    for name, f in exp.methods.items():
+        if ctx.prog.is_glue(f):
+            on_path.add(id(f.node))      # inlined into a method of the path (its own definition is no longer called)
     # the exporter keeps no state while it exports: the text of a cell cannot depend on the cells exported before it
     n_state = 0
     for name, f in exp.methods.items():
-        if f.kind != 'method' or not f.params or name == '__init__':
+        if f.kind != 'method' or not f.params or name == '__init__' or id(f.node) not in on_path:
             continue
         me = f.params[0]
         for a in walk_local(f.node):
@@ -87,6 +96,8 @@ def r1_field_reads(ctx):
             continue
         if ctx.prog.is_glue(f):
             continue        # an extracted helper: its reads are attributed to the methods it was inlined into
+        if id(f.node) not in on_path and name not in ALLOWED_READS:
+            continue        # not part of an export
         reads, writes = set(), []
         for a in walk_local(f.node):
             if isinstance(a, ast.Attribute) and F.is_name(a.value, opt):
